@@ -72,13 +72,14 @@ class C40(vlib.Spec):
         npx = n // 8
         while len(cases) < n - npx:
             cases.append(proto.gen_step(rng, tier))
-        for _ in range(npx):
-            cases.append(proto.gen_px(rng, tier))
-        return cases
+        px = [proto.gen_px(rng, tier) for _ in range(npx)]
+        self.px_batch = self.px_batch + [c for c in cases if c["k"].startswith("px_")] + px
+        return cases + px
 
     # Paxos component cases run the real hydro_test functions compiled through the embedded code generator
     # (harness/h_paxos); built and run here, per case, also on replay.
     px_results = {}
+    px_batch = []
 
     def px_bin(self):
         if not hasattr(self, "_px"):
@@ -96,9 +97,16 @@ class C40(vlib.Spec):
             b = self.px_bin()
             if b is None:
                 return 1
-            r = vlib.run_harness(self.ctx, b, [proto.px_harness_case(case)], name="px")[0]
-            self.px_results[vlib.case_hash(case)] = r
-            return proto.px_term(case, r)
+            h = vlib.case_hash(case)
+            if h not in self.px_results and self.px_batch:
+                # all generated Paxos cases in one harness process (its start-up dominates)
+                batch, self.px_batch = self.px_batch, []
+                rs = vlib.run_harness(self.ctx, b, [proto.px_harness_case(c) for c in batch], name="px", shards=4)
+                for c, r in zip(batch, rs):
+                    self.px_results[vlib.case_hash(c)] = r
+            if h not in self.px_results:
+                self.px_results[h] = vlib.run_harness(self.ctx, b, [proto.px_harness_case(case)], name="px")[0]
+            return proto.px_term(case, self.px_results[h])
         return proto.raft_term(case, res)
 
     def finding_key(self, case, res):
